@@ -198,6 +198,9 @@ func runCheck(o *CheckOpts) int {
 					if o.Tier == "thorough" {
 						steps = []int{timeout, timeout * 3}
 					}
+					if kf := knownObl(known, o.Prop, ob.Name); kf {
+						steps = steps[:1] // recorded finding: one attempt is enough to see whether it still fails
+					}
 					for k, tmo := range steps {
 						q := qt
 						if k == len(steps)-1 {
@@ -530,4 +533,16 @@ func runDump(prop, fnSub, oblSub, repo, verif string) int {
 type oracleOutcome struct {
 	hit *oracleHit
 	why string
+}
+
+func knownObl(known *KnownFile, prop, name string) bool {
+	for _, k := range known.Findings {
+		if k.Property != prop {
+			continue
+		}
+		if k.Obligation == name || (!strings.Contains(k.Obligation, "@") && strings.HasPrefix(name, k.Obligation+"@")) {
+			return true
+		}
+	}
+	return false
 }
